@@ -77,6 +77,8 @@ NChunks(L) == (Len(TermSeq(L)) + Chunk - 1) \div Chunk
 (* Records                                                                 *)
 (***************************************************************************)
 KeyOf(j) == IF j % 9 = 0 THEN "source" ELSE "gene"
+\* 70 letters, containing the word "source" (a class key must not be searched for feature keys)
+LongLab == "xxxxopensourcexxxxxxxxxxxxxxxxxxxxxxxxxxxxxxxxxxxxxxxxxxxxxxxxxxxxxxxxxx"
 FeatRec(t, lab, key) == [key |-> key, label |-> lab, loc |-> t, built |-> (Family \in {"cutsrepair", "reptab"})]
 
 HostFeats(L, c) ==
@@ -84,7 +86,9 @@ HostFeats(L, c) ==
       lo == (c - 1) * Chunk
       n  == IMin(Chunk, Len(ts) - lo)
   \* "reptab": several features share key and qualifiers (label = j mod 5)
-  IN [j \in 1..n |-> FeatRec(ts[lo + j], "f" \o ToString(IF Family = "reptab" THEN j % 5 ELSE j),
+  \* their qualifier value is 70 letters long and the classes differ only in the last letter (a class key
+  \* must compare whole values)
+  IN [j \in 1..n |-> FeatRec(ts[lo + j], (IF Family = "reptab" THEN "f" \o LongLab ELSE "f") \o ToString(IF Family = "reptab" THEN j % 5 ELSE j),
                               IF Family = "reptab" THEN (IF j % 5 = 0 THEN "source" ELSE "gene") ELSE KeyOf(j))]
 
 GuestFeats(n) ==
@@ -133,24 +137,35 @@ Program(L, x) ==
   CASE x[1] = "insert" ->
         << [op |-> "insert", src |-> "r0", guest |-> "g0", dst |-> "r1", i |-> x[2]],
            [op |-> "delete", src |-> "r1", dst |-> "r2", i |-> x[2], n |-> x[3]],
-           Law("restored", "r0", "r2") >>
+           Law("restored", "r0", "r2"),
+           \* the same host and guest values once more, at the mirrored index (in the shared-values run of
+           \* the case the guest has been used before)
+           [op |-> "insert", src |-> "r0", guest |-> "g0", dst |-> "r3", i |-> L - x[2]] >>
     [] x[1] = "embed" ->
         << [op |-> "embed", src |-> "r0", guest |-> "g0", dst |-> "r1", i |-> x[2]],
            [op |-> "delete", src |-> "r1", dst |-> "r2", i |-> x[2], n |-> x[3]],
-           Law("restored", "r0", "r2") >>
-    [] x[1] = "delete" -> << [op |-> "delete", src |-> "r0", dst |-> "r1", i |-> x[2], n |-> x[3]] >>
-    [] x[1] = "erase"  -> << [op |-> "erase", src |-> "r0", dst |-> "r1", i |-> x[2], n |-> x[3]] >>
-    [] x[1] = "slice"  -> << [op |-> "slice", src |-> "r0", dst |-> "r1", s |-> x[2], e |-> x[3]] >>
+           Law("restored", "r0", "r2"),
+           [op |-> "embed", src |-> "r0", guest |-> "g0", dst |-> "r3", i |-> L - x[2]] >>
+    \* every single-call program applies the call a second time to the same value ("again"): in the
+    \* shared-values run of the case a call that wrote through its argument shows up there
+    [] x[1] = "delete" -> << [op |-> "delete", src |-> "r0", dst |-> "r1", i |-> x[2], n |-> x[3]],
+                             [op |-> "delete", src |-> "r0", dst |-> "r9", i |-> x[2], n |-> x[3]] >>
+    [] x[1] = "erase"  -> << [op |-> "erase", src |-> "r0", dst |-> "r1", i |-> x[2], n |-> x[3]],
+                             [op |-> "erase", src |-> "r0", dst |-> "r9", i |-> x[2], n |-> x[3]] >>
+    [] x[1] = "slice"  -> << [op |-> "slice", src |-> "r0", dst |-> "r1", s |-> x[2], e |-> x[3]],
+                             [op |-> "slice", src |-> "r0", dst |-> "r9", s |-> x[2], e |-> x[3]] >>
     [] x[1] = "rotate" ->
         << [op |-> "rotate", src |-> "r0", dst |-> "r1", n |-> x[2]],
            [op |-> "rotate", src |-> "r1", dst |-> "r2", n |-> 0 - x[2]],
-           Law("samemeaning", "r0", "r2") >>
+           Law("samemeaning", "r0", "r2"),
+           [op |-> "rotate", src |-> "r0", dst |-> "r9", n |-> x[2]] >>
     [] x[1] = "reverse" ->
-        << Op1("reverse", "r0", "r1"), Op1("reverse", "r1", "r2"), Law("samemeaning", "r0", "r2") >>
+        << Op1("reverse", "r0", "r1"), Op1("reverse", "r1", "r2"), Law("samemeaning", "r0", "r2"), Op1("reverse", "r0", "r9") >>
     [] x[1] = "complement" ->
-        << Op1("complement", "r0", "r1"), Op1("complement", "r1", "r2"), Law("sameraw", "r0", "r2") >>
+        << Op1("complement", "r0", "r1"), Op1("complement", "r1", "r2"), Law("sameraw", "r0", "r2"), Op1("complement", "r0", "r9") >>
     [] x[1] = "revcomp" ->
-        << Op1("complement", "r0", "r1"), Op1("reverse", "r1", "r2"), Law("sameextract", "r0", "r2") >>
+        << Op1("complement", "r0", "r1"), Op1("reverse", "r1", "r2"), Law("sameextract", "r0", "r2"),
+           Op1("reverse", "r0", "r8"), Op1("reverse", "r0", "r9") >>
     [] x[1] = "rot2" ->
         << [op |-> "rotate", src |-> "r0", dst |-> "r1", n |-> x[2]],
            [op |-> "rotate", src |-> "r1", dst |-> "r2", n |-> x[3]],
@@ -222,11 +237,17 @@ PureFeats ==
      FeatRec(Jn(<<Rg(0, 2, FALSE, FALSE), Rg(3, 5, FALSE, TRUE)>>), "f2", "gene"),
      FeatRec(Cp(Od(<<Pt(1), Rg(4, 6, FALSE, FALSE)>>)), "f3", "gene"),
      FeatRec(Bw(3), "f4", "misc"), FeatRec(Pt(5), "f5", "gene") >>
+\* family "puremerge": two fragments with equal key and qualifiers and facing partial ends, and two abutting
+\* source fragments - Repair has something to merge (labels repeat, so these records are not design-checked)
+PureFeatsM ==
+  << FeatRec(Rg(0, 3, FALSE, FALSE), "s", "source"), FeatRec(Rg(3, 6, FALSE, FALSE), "s", "source"),
+     FeatRec(Rg(0, 2, FALSE, TRUE), "m", "exon"), FeatRec(Rg(2, 4, TRUE, FALSE), "m", "exon"), FeatRec(Pt(5), "f5", "gene") >>
+IsPure == Family \in {"pure", "puremerge"}
 PureRecs(g) ==
   LET st == Stores[(g % Len(Stores)) + 1]
       kd == Kinds[(g \div Len(Stores)) + 1]
   IN << [name |-> "r0", res |-> [j \in 1..6 |-> 96 + j], topo |-> "circular", kind |-> kd,
-         store |-> st, buf |-> "B", off |-> 0, feats |-> PureFeats,
+         store |-> st, buf |-> "B", off |-> 0, feats |-> (IF Family = "puremerge" THEN PureFeatsM ELSE PureFeats),
          refs |-> << RefRec(<< <<0, 6>> >>), RefRec(<< <<1, 4>>, <<4, 6>> >>), [info |-> "(sites)", ranged |-> FALSE, ranges |-> <<>>] >>],
         [name |-> "g0", res |-> [j \in 1..2 |-> 64 + j], topo |-> "na", kind |-> "basic",
          store |-> st, buf |-> "B", off |-> 6, feats |-> <<FeatRec(Rg(0, 2, FALSE, FALSE), "g1", "gene")>>] >>
@@ -236,16 +257,16 @@ TopoFor(x) == IF x[1] \in {"rotate", "rot2", "slice"} THEN "circular" ELSE "line
 Instances(L) ==
   CASE Family = "edit" -> {x \in EditInstances(L) : x[1] \in OpKinds}
     [] Family = "rot2" -> {<<"rot2", a, b>> : a \in (0 - L)..(2 * L), b \in (0 - L)..(2 * L)}
-    [] Family = "pure" -> PureInstances
+    [] IsPure -> PureInstances
     [] Family = "reptab" -> {<<"reptab", 0, 0>>}
     [] Family = "cutsrepair" -> {<<"cutsrepair", m, 0>> : m \in 1..(Pow2(L - 1) - 1)} \ {x \in {<<"cutsrepair", m, 0>> : m \in 1..(Pow2(L - 1) - 1)} : Len(CutsOf(x[2], L)) > 3}
     [] Family \in {"cuts", "cutsshared"} -> {<<"cuts", m, 0>> : m \in 0..(Pow2(L - 1) - 1)} \ {x \in {<<"cuts", m, 0>> : m \in 0..(Pow2(L - 1) - 1)} : Len(CutsOf(x[2], L)) > MaxCuts}
     [] OTHER -> {}
 
 \* all cases: <<L, chunk, instance>>
-AllCases == UNION {{<<L, c, x>> : c \in (IF Family = "pure" THEN {1} ELSE 1..NChunks(L)), x \in Instances(L)} : L \in Ls}
+AllCases == UNION {{<<L, c, x>> : c \in (IF IsPure THEN {1} ELSE 1..NChunks(L)), x \in Instances(L)} : L \in Ls}
 CaseSeq == SetToSeq(AllCases)
-PickedSeq == SelectSeq([j \in 1..Len(CaseSeq) |-> <<j, CaseSeq[j]>>], LAMBDA p : Family = "pure" \/ p[1] % Stride = Offset % Stride)
+PickedSeq == SelectSeq([j \in 1..Len(CaseSeq) |-> <<j, CaseSeq[j]>>], LAMBDA p : IsPure \/ p[1] % Stride = Offset % Stride)
 
 CaseId(cs) == "L" \o ToString(cs[1]) \o ".c" \o ToString(cs[2]) \o "." \o cs[3][1] \o "." \o ToString(cs[3][2]) \o "." \o ToString(cs[3][3])
 
